@@ -423,7 +423,13 @@ def load_known():
         out += json.loads(p.read_text())["findings"]
     for q in sorted((VERIF / "known_findings.d").glob("*.json")):
         out += json.loads(q.read_text())["findings"]
-    return out
+    seen, uniq = set(), []
+    for f in out:
+        k = (f["property"], f["kind"], f["key"])
+        if k not in seen:
+            seen.add(k)
+            uniq.append(f)
+    return uniq
 
 
 def pmap(func, items, procs: int | None = None, chunksize: int = 16):
